@@ -34,7 +34,21 @@ def make_cases(ctx: Ctx, backend: str, n: int, depths: List[int], opts: Dict[str
             ctx.count("generator_rejected")
             continue
         evs = evgen.gen_events(s, ctx.rng(stream, "ev", backend, tries), nevents)
-        cases.append(diff.Case(backend, q["query"], evs, diff.members_used(s, q["query"]), tag=q))
+        text = q["query"]
+        if opts.get("reuse_parameter_names", True) and R.random() < 0.25:
+            # the generator gives every lambda its own parameter name; people write `lambda j:` everywhere.  Rename as many
+            # parameters as the scoping rules allow to the same few names (same meaning, see vf/variants.py)
+            import ast as _ast
+            from .. import variants as V
+            try:
+                t, nren = V.alpha_rename(V.parse(text), R, R.choice([["x"], ["j", "e"], ["j", "t", "e"]]))
+                if nren:
+                    text = _ast.unparse(t)
+                    q = dict(q, query=text)
+                    ctx.count("queries_with_reused_parameter_names")
+            except Exception:
+                pass
+        cases.append(diff.Case(backend, text, evs, diff.members_used(s, text), tag=q))
     return cases
 
 
